@@ -270,30 +270,35 @@ def run(F, R, tier):
 
     # ---------------------------------------------------------------- R6 status evaluation (T4)
     r6 = R.rule("C12-R6", "T4", "entry(): (Revocation,set)->Revoked, (Suspension,set)->Suspended, else Valid")
-    h = F.hir(CR + "::StatusList2021Credential::entry")
-    if r6.anchor(h, "StatusList2021Credential::entry"):
-        m = H.find_first(h, lambda n: n.get("k") == "match" and n.get("src") == "normal")
-        table = {}
-        if m:
-            for arm in m["arms"]:
-                table[H.pat_str(arm["pat"])] = H.variant_name(H.strip(arm["body"]).get("res", {})) if H.strip(arm["body"]).get("k") == "path" else H.outcome(arm["body"])
-                r6.site("arm %s => %s" % (H.pat_str(arm["pat"]), table[H.pat_str(arm["pat"])]), arm["body"].get("sp"))
-        want = {"(Revocation, True)": "Revoked", "(Suspension, True)": "Suspended"}
-        for k, v in want.items():
-            r6.require(table.get(k) == v, ("entry", k), "entry(): arm %s yields %s, expected %s" % (k, table.get(k), v))
-        rest = {k: v for k, v in table.items() if k not in want}
-        r6.require(all(v == "Valid" for v in rest.values()) and rest, ("entry", "default"), "entry(): remaining arms %s must all yield Valid" % rest)
-        # the scrutinee is (self.purpose(), status_list.get(index)?)
-        if m:
-            env = H.Env(h)
-            sc = H.strip(m["scrut"])
-            if sc.get("k") == "tup" and len(sc["es"]) == 2:
-                o0 = H.origins(sc["es"][0], env)
-                o1 = H.origins(sc["es"][1], env)
-                r6.require(any(o[0] == "call" and o[1].endswith("::purpose") for o in o0), ("entry", "scrut0"), "first scrutinee is not self.purpose(): %s" % sorted(o0))
-                r6.require(any(o[0] == "call" and o[1] == SL + "::get" for o in o1), ("entry", "scrut1"), "second scrutinee is not status_list.get(index): %s" % sorted(o1))
-            else:
-                r6.fail(("entry", "scrut-shape"), "entry(): scrutinee is not a (purpose, bit) pair")
+    efn = CR + "::StatusList2021Credential::entry"
+    if r6.anchor(F.hir(efn), "StatusList2021Credential::entry"):
+        tab = SR.Table(F, efn, opaque=r"StatusList2021::get$|try_from_encoded_str$|StatusList2021 as core::convert::TryFrom", rule=r6)
+        rows = set()
+        for q in tab.ok():
+            gets = [e for e in q.calls(r"StatusList2021::get$") if q.succeeded(e) is True and sym.term(e.args[1]) == SR.param("index")]
+            if not r6.require(len(gets) == 1, ("entry", "scrut1"), "entry() does not read status_list.get(index)? on an accepting path"):
+                continue
+            bit_t = ("payload", gets[0].result.t, "Ok", 0)
+            bit = q.val.get(("truth", bit_t))
+            if bit is None:
+                for (a, c, _, _) in q.decisions:
+                    if a[0] == "eq" and bit_t in (a[1], a[2]) and ("lit", True) in (a[1], a[2]):
+                        bit = c
+                    if a[0] == "eq" and bit_t in (a[1], a[2]) and ("lit", False) in (a[1], a[2]):
+                        bit = not c
+            purpose = None
+            for t_, v_ in q.variant.items():
+                if v_ in ("Revocation", "Suspension") and SR.derives(t_, SR.SELF):
+                    purpose = v_
+            out = q.ret.fields[0] if isinstance(q.ret, sym.V) and q.ret.fields else None
+            rows.add((purpose, bit, out.name if isinstance(out, sym.V) else repr(out)))
+        for row in sorted(rows, key=str):
+            r6.site("entry(): purpose %s, bit %s → %s" % row)
+        for (pu, b, o) in rows:
+            want = "Revoked" if (pu == "Revocation" and b is True) else ("Suspended" if (pu == "Suspension" and b is True) else ("Valid" if b is False else None))
+            r6.require(want is not None and o == want, ("entry", "(%s, %s)" % (pu, b)), "entry(): purpose %s with bit %s yields %s, expected %s" % (pu, b, o, want))
+        r6.require({(pu, b) for pu, b, _ in rows if b is True} == {("Revocation", True), ("Suspension", True)} and any(b is False for _, b, _ in rows) or not tab.paths, ("entry", "default"),
+                   "entry() does not distinguish (Revocation, set), (Suspension, set) and unset: %s" % sorted(rows, key=str))
     r6.floor(3)
     _check_status(F, R)
 
@@ -431,33 +436,38 @@ def _check_status(F, R):
     if not r7.anchor(cands[0] if cands else None, "check_status_with_status_list_2021"):
         return
     fn = cands[0]
-    h = F.hir(fn)
-    body = F.mir(fn)
-    env = H.Env(h)
-    # the match over entry(index)
-    ms = [n for n in H.walk(H.root(h)) if n.get("k") == "match" and n.get("src") == "normal"]
-    table = {}
-    for m in ms:
-        o = H.origins(m["scrut"], env)
-        if any(x[0] == "call" and x[1].endswith("StatusList2021Credential::entry") for x in o):
-            for arm in m["arms"]:
-                table[H.pat_str(arm["pat"])] = H.outcome(arm["body"])
-                r7.site("arm %s => %s" % (H.pat_str(arm["pat"]), table[H.pat_str(arm["pat"])]), arm["body"].get("sp"))
-    r7.require(table.get("Revoked", "").startswith("Err(") , (fn, "Revoked"), "CredentialStatus::Revoked does not map to an error (table %s)" % table)
-    r7.require(table.get("Suspended", "").startswith("Err("), (fn, "Suspended"), "CredentialStatus::Suspended does not map to an error (table %s)" % table)
-    r7.require(table.get("Valid") == "Ok", (fn, "Valid"), "CredentialStatus::Valid does not map to Ok (table %s)" % table)
-    # comparisons that must dominate the Ok: id of the status list credential and the purpose
-    cmps = H.comparisons(h, ("Eq", "Ne"))
-    found = set()
-    for c in cmps:
-        ol = H.origins(c["l"], env)
-        orr = H.origins(c["r"], env)
-        s = repr(sorted(ol | orr))
-        if "purpose" in s:
-            found.add("purpose")
-        if "status_list_credential" in s and ("::id" in s or "'id'" in s):
-            found.add("id")
-        r7.site("comparison %s" % c["op"], c["sp"], lhs=sorted(map(str, ol))[:3], rhs=sorted(map(str, orr))[:3])
-    r7.require("purpose" in found, (fn, "purpose-compare"), "no comparison of the entry's purpose with the status list credential's purpose")
-    r7.require("id" in found, (fn, "id-compare"), "no comparison of the entry's status list credential id with the credential's id")
+    OPQ = r"StatusList2021Entry as core::convert::TryFrom|StatusList2021Credential::(entry|purpose|id)$|StatusList2021Entry::(status_list_credential|purpose|index)$"
+    tab = SR.Table(F, fn, opaque=OPQ, rule=r7)
+    SC, CS = SR.param("status_check"), SR.fld("credential_status", base=SR.param("credential"))
+    rows = set()
+    for q in tab.paths:
+        sc, st = SR.variant(q, SC), SR.variant(q, CS)
+        ent = [e for e in q.calls(r"StatusList2021Credential::entry$")]
+        entv = None
+        if ent and q.succeeded(ent[-1]) is True:
+            entv = q.variant.get(("payload", ent[-1].result.t, "Ok", 0))
+        ok = SR.is_success(q.ret)
+        rows.add((sc, st, entv, "Ok" if ok else SR.err_name(q.ret)))
+        if ok:
+            good = sc == "SkipAll" or st == "None" or entv == "Valid"
+            r7.require(good, (fn, "early-ok"), "check_status_with_status_list_2021 passes a credential whose entry was not found Valid (status_check=%s, status=%s, entry=%s)" % (sc, st, entv))
+            if entv == "Valid":
+                parsed = [e for e in q.calls(r"StatusList2021Entry as core::convert::TryFrom") if q.succeeded(e) is True and SR.derives(e.args[0], CS)]
+                if r7.require(len(parsed) == 1, (fn, "entry-source"), "the status entry is not parsed from the credential's own status"):
+                    pe = ("payload", parsed[0].result.t, "Ok", 0)
+                    r7.require(SR.derives(ent[-1].args[1], pe) and "index" in sym.fmt(sym.term(ent[-1].args[1])), (fn, "index"), "entry() is not looked up at the status entry's index")
+                    r7.require(SR.derives(ent[-1].args[0], SR.param("status_list_credential")), (fn, "list"), "entry() is not evaluated on the supplied status list credential")
+                    ideq = any(a[0] == "eq" and c is True and any(SR.derives(x, pe) and "status_list_credential" in sym.fmt(x) for x in (a[1], a[2])) and any(SR.derives(x, SR.param("status_list_credential")) and "id" in sym.fmt(x) for x in (a[1], a[2]))
+                               for (a, c, _, _) in q.decisions)
+                    pueq = any(a[0] == "eq" and c is True and any(SR.derives(x, pe) and "purpose" in sym.fmt(x) for x in (a[1], a[2])) and any(SR.derives(x, SR.param("status_list_credential")) and "purpose" in sym.fmt(x) and not SR.derives(x, pe) for x in (a[1], a[2]))
+                               for (a, c, _, _) in q.decisions)
+                    r7.require(ideq, (fn, "id-compare"), "Ok without the entry's status list credential id having been found equal to the credential's id")
+                    r7.require(pueq, (fn, "purpose-compare"), "Ok without the entry's purpose having been found equal to the status list credential's purpose")
+    for row in sorted(rows, key=str):
+        r7.site("check_status_with_status_list_2021: status_check %s, status %s, entry %s → %s" % row)
+    if tab.paths:
+        r7.require(any(x[2] == "Revoked" and x[3] == "Revoked" for x in rows), (fn, "Revoked"), "CredentialStatus::Revoked does not map to the Revoked error (%s)" % sorted(rows, key=str))
+        r7.require(any(x[2] == "Suspended" and x[3] == "Suspended" for x in rows), (fn, "Suspended"), "CredentialStatus::Suspended does not map to the Suspended error")
+        r7.require(any(x[2] == "Valid" and x[3] == "Ok" for x in rows), (fn, "Valid"), "CredentialStatus::Valid does not map to Ok")
+        r7.require(not any(x[2] in ("Revoked", "Suspended") and x[3] == "Ok" for x in rows), (fn, "Revoked"), "a Revoked/Suspended entry is accepted")
     r7.floor(5)
